@@ -16,6 +16,8 @@ def run(chk):
     for f in _compose.load(["_funcs"], chk):
         if hasattr(f, "run_composites"):
             f.run_composites(chk)
+        if hasattr(f, "table_obligation_setup"):
+            f.table_obligation_setup(chk)      # the function table of THIS working tree (the programs are generated against the model driver)
         if hasattr(f, "pown_program"):
             # values through both APIs (lazy Node path / eager Tensor path) and the function table: attribute values at the
             # integer-width boundaries (pown), the result batch of a binary function with one shared operand (dense cross entropy)
